@@ -43,6 +43,7 @@ func scalar(t T) Val { return Val{K: vScalar, T: t} }
 type Frame struct {
 	fn    *ssa.Function
 	env   map[ssa.Value]Val
+	loopHeads map[int]map[string]T // heap snapshot at the head of each loop in its current iteration (for at(L, e))
 	names map[string]Val // source-level names bound by DebugRef (values) — latest
 	addrs map[string]Val // source-level names whose DebugRef is an address
 	lets  map[string]Val // ghost lets
@@ -62,6 +63,12 @@ func (f *Frame) clone() *Frame {
 	g.env = make(map[ssa.Value]Val, len(f.env))
 	for k, v := range f.env {
 		g.env[k] = v
+	}
+	if f.loopHeads != nil {
+		g.loopHeads = make(map[int]map[string]T, len(f.loopHeads))
+		for k, v := range f.loopHeads {
+			g.loopHeads[k] = v // snapshots are immutable once taken
+		}
 	}
 	g.names = make(map[string]Val, len(f.names))
 	for k, v := range f.names {
